@@ -122,13 +122,17 @@ type strSnap struct {
 	exists  bool
 	st      strtypes.Stream
 	sendBal sdk.Int
+	recvBal sdk.Int // receiver's balance in the stream's denomination
+	feeBal  sdk.Int // fee collector's balance in the stream's denomination
 }
 
 func (m *monitors) snapStream(sn, rc sdk.AccAddress) strSnap {
 	c := m.h.c
 	st, ok := c.app.StreamKeeper.GetStream(c.ctx(), rc, sn)
-	ss := strSnap{exists: ok, st: st, sendBal: sdk.ZeroInt()}
+	ss := strSnap{exists: ok, st: st, sendBal: sdk.ZeroInt(), recvBal: sdk.ZeroInt(), feeBal: sdk.ZeroInt()}
 	if ok {
+		ss.recvBal = c.app.BankKeeper.GetBalance(c.ctx(), rc, st.Deposit.Denom).Amount
+		ss.feeBal = c.app.BankKeeper.GetBalance(c.ctx(), moduleAddr("fee_collector"), st.Deposit.Denom).Amount
 		ss.sendBal = c.app.BankKeeper.GetBalance(c.ctx(), sn, st.Deposit.Denom).Amount
 	}
 	return ss
@@ -290,6 +294,25 @@ func (m *monitors) afterTx(g genTx, res txResult, cls int, check bool) {
 					if !paid.Equal(want) {
 						m.fail("C11", 0, fmt.Sprintf("claim released %s, expected %s (deposit %s rate %d last %s zero %s now %s)", paid, want, st.Deposit, st.FlowRate, st.LastOutflowTime, st.DepositZeroTime, now))
 					}
+					// C10: the release is split floor(release * fee rate) to the fee collector, the rest to the receiver
+					{
+						cc := m.h.c
+						rate := cc.app.StreamKeeper.GetParams(cc.ctx()).ValidatorFee
+						wantFee := sdk.NewDecFromInt(paid).Mul(rate).TruncateInt()
+						txFee := sdk.ZeroInt()
+						if st.Deposit.Denom == "nund" {
+							txFee = g.spec.fee.AmountOf("nund")
+						}
+						rcv := sdk.MustAccAddressFromBech32(t.Receiver)
+						gotFee := cc.app.BankKeeper.GetBalance(cc.ctx(), moduleAddr("fee_collector"), st.Deposit.Denom).Amount.Sub(sb.feeBal).Sub(txFee)
+						gotRecv := cc.app.BankKeeper.GetBalance(cc.ctx(), rcv, st.Deposit.Denom).Amount.Sub(sb.recvBal)
+						if g.msgs[0].signer >= 0 && cc.addrOf(g.msgs[0].signer).Equals(rcv) && st.Deposit.Denom == "nund" {
+							gotRecv = gotRecv.Add(txFee) // the receiver paid the transaction fee itself
+						}
+						if !gotFee.Equal(wantFee) || !gotRecv.Equal(paid.Sub(wantFee)) {
+							m.fail("C10", 0, fmt.Sprintf("claim released %s%s at validator fee %s: the fee collector got %s (floor(release x rate) = %s), the receiver %s", paid, st.Deposit.Denom, rate, gotFee, wantFee, gotRecv))
+						}
+					}
 					m.h.flags["claims_checked"]++
 				}
 			}
@@ -320,6 +343,33 @@ func (m *monitors) afterTx(g genTx, res txResult, cls int, check bool) {
 			}
 		}
 	}
+	// C09: a successful registration stores exactly the submitted moniker / name / genesis / type, and one beyond the size
+	// limits never succeeds (single top-level registration per transaction: its id is the counter minus one)
+	if cls == 0 && len(g.msgs) == 1 {
+		cc := m.h.c
+		switch t := g.msgs[0].m.(type) {
+		case *wrktypes.MsgRegisterWrkChain:
+			next, _ := cc.app.WrkchainKeeper.GetHighestWrkChainID(cc.ctx())
+			if wc, ok := cc.app.WrkchainKeeper.GetWrkChain(cc.ctx(), next-1); ok && wc.Owner == t.Owner {
+				if wc.Moniker != t.Moniker || wc.Name != t.Name || wc.Genesis != t.GenesisHash || wc.Type != t.BaseType {
+					m.fail("C09", 0, fmt.Sprintf("WRKChain %d stores (%q, %q, %q, %q) for a registration submitted as (%q, %q, %q, %q)", next-1, wc.Moniker, wc.Name, wc.Genesis, wc.Type, t.Moniker, t.Name, t.GenesisHash, t.BaseType))
+				}
+			}
+			if len(t.Moniker) > 64 || len(t.Name) > 128 || len(t.GenesisHash) > 66 {
+				m.fail("C09", 0, fmt.Sprintf("a WRKChain registration beyond the size limits (moniker %d, name %d, genesis %d bytes) succeeded", len(t.Moniker), len(t.Name), len(t.GenesisHash)))
+			}
+		case *bcntypes.MsgRegisterBeacon:
+			next, _ := cc.app.BeaconKeeper.GetHighestBeaconID(cc.ctx())
+			if b, ok := cc.app.BeaconKeeper.GetBeacon(cc.ctx(), next-1); ok && b.Owner == t.Owner {
+				if b.Moniker != t.Moniker || b.Name != t.Name {
+					m.fail("C09", 0, fmt.Sprintf("BEACON %d stores (%q, %q) for a registration submitted as (%q, %q)", next-1, b.Moniker, b.Name, t.Moniker, t.Name))
+				}
+			}
+			if len(t.Moniker) > 64 || len(t.Name) > 128 {
+				m.fail("C09", 0, fmt.Sprintf("a BEACON registration beyond the size limits (moniker %d, name %d bytes) succeeded", len(t.Moniker), len(t.Name)))
+			}
+		}
+	}
 	// C05: locked eFUND moves only for the fee payer of a registry transaction, by min(fee, locked)
 	c := m.h.c
 	ctx := c.ctx()
@@ -347,6 +397,19 @@ func (m *monitors) afterTx(g genTx, res txResult, cls int, check bool) {
 			m.fail("C05", 0, fmt.Sprintf("tx (registry=%v payer=%d fee=%s) changed locked[%d] by -%s and spent by +%s (allowed: payer only, min(fee,locked)=%s)", isReg, payer, fee, i, dl, ds, want))
 		}
 		m.h.flags["unlock_events"]++
+	}
+	// ... and it DOES move then: a delivered registry transaction (it succeeded, so it passed every pre-execution check)
+	// whose payer held locked eFUND pays min(fee, locked) out of it
+	if fee := g.spec.fee.AmountOf("nund"); isReg && res.Code == 0 && payer >= 0 && payer < len(c.accts) && g.spec.payer.Empty() && g.spec.granter.Empty() &&
+		m.lockedBefore[payer].IsPositive() && fee.IsPositive() {
+		l := c.app.EnterpriseKeeper.GetLockedUndAmountForAccount(ctx, c.addrOf(payer)).Amount
+		want := fee
+		if m.lockedBefore[payer].LT(fee) {
+			want = m.lockedBefore[payer]
+		}
+		if !m.lockedBefore[payer].Sub(l).Equal(want) {
+			m.fail("C05", 0, fmt.Sprintf("a delivered transaction with a top-level WRKChain/BEACON message (fee %snund) left the payer's locked eFUND at %s (was %s): min(fee, locked) = %s was not taken from it", fee, l, m.lockedBefore[payer], want))
+		}
 	}
 	m.invariants("DeliverTx")
 }
@@ -606,10 +669,14 @@ func (m *monitors) checkAdmission(g genTx, cls int) {
 	m.h.flags["checktx_registry_admitted"]++
 	sent := g.spec.fee.AmountOf("nund")
 	want := fn.wrk.Add(fn.bcn).Add(fn.nestedSum)
+	// the two listed findings describe ONE behaviour each: every decorator compares the whole fee with the sum of its own
+	// module's TOP-LEVEL messages.  An admission is in a listed class only if it is explained by exactly that: each module
+	// present at the top level got precisely its own sum.  Anything else (a module's sum not checked at all, ...) is new.
+	explained := (!fn.hasWrk || sent.Equal(fn.wrk)) && (!fn.hasBcn || sent.Equal(fn.bcn))
 	class := 0
-	if fn.nestedWrk || fn.nestedB {
+	if explained && (fn.nestedWrk || fn.nestedB) {
 		class = 2 // listed: registry message nested in MsgExec
-	} else if fn.hasWrk && fn.hasBcn {
+	} else if explained && fn.hasWrk && fn.hasBcn {
 		class = 1 // listed: WRKChain and BEACON messages in one transaction
 	}
 	if !sent.Equal(want) {
